@@ -41,4 +41,8 @@ ITEMS = [
     # what stream / checkpoint persist is the extended-JSON text of the row: its encoder is part of "captures the stream at its position"
     Item('ejson.round-trip', lazy_sym('C07', 'sym_ejson_roundtrip'), [('differential', lazy_nat('C07', 'nat_ejson'))],
          'dataflows/helpers/extended_json.py::CommonJSONEncoder.default'),
+    # what a file dumper persists is the serialised row: the serializer tables and their use are part of "captures the stream"
+    Item('type-tables', lazy_sym('C03', 'sym_type_tables'), [], 'dataflows/processors/dumpers/formats/format_csv.py::CSVFormat'),
+    Item('FileFormat', lazy_sym('C03', 'sym_file_format'), [('round-trip', lazy_nat('C03', 'nat_roundtrip'))],
+         'dataflows/processors/dumpers/formats/base.py::FileFormat.write_row'),
 ]
